@@ -50,6 +50,15 @@ def args_pattern(ct: Dict[str, Any]) -> str:
     return "".join(out)
 
 
+def env_pattern(ct: Dict[str, Any]) -> Dict[str, str]:
+    """The inline environment of a component template with `env`: one value per literal slot plus the tag."""
+    env = {"C06_TAG": "t-%(tag)s", "C06_FIXED": "1"}
+    for s in ct["slots"]:
+        if s["k"] == "lit":
+            env["C06_%s" % s["name"].upper()] = "%%(%s)s" % s["name"]
+    return env
+
+
 def _lit_text(v) -> str:
     return v if isinstance(v, str) else str(v)
 
@@ -99,7 +108,8 @@ def _walk_strings(obj, where=()):
         yield where, obj
 
 
-def compare(flat: Dict[str, Any], components: List[Dict[str, Any]], parse_reference) -> Dict[int, Tuple[int, str]]:
+def compare(flat: Dict[str, Any], components: List[Dict[str, Any]], parse_reference,
+            environments: Optional[Dict[str, Any]] = None) -> Dict[int, Tuple[int, str]]:
     """Raises Mismatch when the compiled `components` (FlowIR dicts) do not realise the flat model.
 
     parse_reference(ref_string, stage_of_consumer) -> (stage, name, filename|None, method)   [the FlowIR parser]
@@ -185,6 +195,13 @@ def compare(flat: Dict[str, Any], components: List[Dict[str, Any]], parse_refere
         if c["command"].get("executable") != want_exe:
             raise Mismatch("argument-mismatch", "%s: expected executable %r, compiled %r" % (
                 who, want_exe, c["command"].get("executable")))
+        if ct.get("env"):
+            name = c["command"].get("environment")
+            env = (environments or {}).get(name) if isinstance(name, str) else None
+            want_env = {k: _PARAM.sub(lambda m: values[m.group(1)], v) for k, v in env_pattern(ct).items()}
+            if not isinstance(env, dict) or {k: str(v) for k, v in env.items()} != want_env:
+                raise Mismatch("environment-parameter-mismatch", "%s: expected environment %r, compiled %r -> %r" % (
+                    who, want_env, name, env))
         allowed = {VAR_NAME} if ct.get("var") else set()
         for where, s in _walk_strings(c):
             for m in _PARAM.finditer(s):
